@@ -95,7 +95,21 @@ func VfC02_Template() {
 		src = "@g = global i32 0, !dbg !" + i + "\n!nm = !{!" + j + "}\n!" + i + " = !{!" + j + ", !\"s\"}\n!" + j + " = distinct !{}\n!nm = !{!" + i + "}\n"
 	case 4: // strings with escapes and a character array
 		h := hHexDigits("h", 2)
-		src = "source_filename = \"a\\" + h + "b\"\ntarget triple = \"t\\" + h + "\"\n@s = global [3 x i8] c\"x\\" + h + "y\"\n"
+		src = "source_filename = \"a\\" + h + "b\"\ntarget triple = \"t\\" + h + "\"\n@s = global [3 x i8] c\"x\\" + h + "y\"\n" +
+			// every other place that holds a string literal, spelled with an escape
+			"module asm \"m\\" + h + "\"\n" +
+			"@sg = global i32 0, section \"s\\" + h + "\", partition \"p\\" + h + "\"\n" +
+			"define void @sf(i32* %p) #0 section \"f\\" + h + "\" gc \"g\\" + h + "\" {\n" +
+			"\tfence syncscope(\"y\\" + h + "\") seq_cst\n" +
+			"\t%l = load atomic i32, i32* %p syncscope(\"y\\" + h + "\") seq_cst, align 4\n" +
+			"\tstore atomic i32 %l, i32* %p syncscope(\"y\\" + h + "\") seq_cst, align 4\n" +
+			"\t%c = cmpxchg i32* %p, i32 0, i32 1 syncscope(\"y\\" + h + "\") seq_cst seq_cst\n" +
+			"\t%r = atomicrmw add i32* %p, i32 1 syncscope(\"y\\" + h + "\") seq_cst\n" +
+			"\tcall void asm \"a\\" + h + "\", \"c\\" + h + "\"()\n" +
+			"\tcall void @sf(i32* %p) [ \"t\\" + h + "\"(i32 1) ]\n" +
+			"\tret void, !dbg !1\n}\n" +
+			"attributes #0 = { \"k\\" + h + "\"=\"v\\" + h + "\" \"w\\" + h + "\" }\n" +
+			"!0 = !{!\"m\\" + h + "\"}\n!1 = !DIFile(filename: \"n\\" + h + "\", directory: \"d\\" + h + "\")\n"
 	case 5: // comdat, alias, ifunc, attribute groups, section string
 		c := hLetterIn("c", 'a', 'f')
 		n := hDigits("n", 1, '0', '9')
